@@ -78,6 +78,7 @@ Expected(ev, pre, post) ==
     [] ev.a = "Restart" -> Restart(pre, post.rto)
     [] ev.a = "Snapshot" -> TakeSnapshot(pre)
     [] ev.a = "Compact" -> Compact(pre, ev.val)
+    [] ev.a = "SetRto" -> [pre EXCEPT !.rto = post.rto]    \* the environment re-draws the randomized timeout
 
 Enabled(ev, pre) ==
   CASE ev.a = "Deliver" -> MsgOf(ev.m) \in net /\ pre.up
@@ -105,7 +106,7 @@ PropNames == {"CommittedAgree", "CommitWithinLog", "LogMatching", "ApplyAgreemen
               "LeaderCompleteness", "DurableVote", "OnlyVotersLead", "NonVotingWitnessRoles",
               "ElectionQuorum", "CommitQuorum", "WitnessNoPayload", "WitnessLogMeta", "ReadIndexSafe",
               "ReadIndexRespSafe", "ReadIndexMechanism", "OneCCAtATime", "RemovedNeverReadmitted",
-              "KindsDisjoint", "MembershipHasVoter", "KindOnlyPromotes"}
+              "KindsDisjoint", "MembershipHasVoter", "KindOnlyPromotes", "BoundedProgress"}
 PropHolds(p) ==
   CASE p = "CommittedAgree" -> CommittedAgree [] p = "CommitWithinLog" -> CommitWithinLog
     [] p = "LogMatching" -> LogMatching [] p = "ApplyAgreement" -> ApplyAgreement
@@ -120,6 +121,7 @@ PropHolds(p) ==
     [] p = "ReadIndexMechanism" -> ReadIndexMechanism [] p = "OneCCAtATime" -> OneCCAtATime
     [] p = "RemovedNeverReadmitted" -> RemovedNeverReadmitted [] p = "KindsDisjoint" -> KindsDisjoint
     [] p = "MembershipHasVoter" -> MembershipHasVoter [] p = "KindOnlyPromotes" -> KindOnlyPromotes
+    [] p = "BoundedProgress" -> "BoundedProgress" \notin h.bad
 \* first violation of each property per trace is recorded
 Judge(ev) ==
   viol' = viol \cup {<<ev.t, ev.i, p>> : p \in {q \in PropNames : ~PropHolds(q)' /\ \A x \in viol : ~(x[1] = ev.t /\ x[3] = q)}}
@@ -137,6 +139,15 @@ StepDrop(ev) ==
   /\ net' = IF ev.dup THEN net ELSE net \ {m}
   /\ UNCHANGED <<node, h, drift, drifts, panicked>>
 
+StepHealed(ev) ==
+  /\ h' = [h EXCEPT !.healed = TRUE]
+  /\ UNCHANGED <<node, net, drift, drifts, panicked>>
+
+\* the fair phase is over: the progress predicate must hold on the observed state
+StepProgress(ev) ==
+  /\ h' = IF ProgressPred THEN h ELSE [h EXCEPT !.bad = @ \cup {"BoundedProgress"}]
+  /\ UNCHANGED <<node, net, drift, drifts, panicked>>
+
 StepPanic(ev) ==
   /\ panicked' = panicked \cup {<<ev.t, ev.panic>>}
   /\ UNCHANGED <<node, net, h, drift, drifts>>
@@ -152,7 +163,11 @@ StepNode(ev) ==
       exp == IF en /\ Conformance THEN Expected(ev, pre, post) ELSE post
       diff == IF en THEN DiffFields(exp, post) ELSE {"<not enabled>"}
       conforms == diff = {}
-      hh == IF ev.a = "ReadIndex" THEN HIssue(h, ev.val) ELSE h
+      hh0 == IF ev.a = "ReadIndex" THEN HIssue(h, ev.val) ELSE h
+      hh == IF ~h.healed THEN hh0
+            ELSE IF ev.a = "Propose" THEN [hh0 EXCEPT !.probes = @ \cup {<<n, ev.val>>}]
+            ELSE IF ev.a = "ReadIndex" THEN [hh0 EXCEPT !.probectx = @ \cup {<<n, ev.val>>}]
+            ELSE hh0
   IN
   /\ node' = [node EXCEPT ![n] = post]
   /\ net' = CASE ev.a = "Deliver" -> IF ev.dup THEN net ELSE net \ {m}
@@ -170,6 +185,8 @@ TraceNext ==
      /\ CASE ev.a = "Init" -> StepInit(ev)
           [] ev.a = "Drop" -> StepDrop(ev)
           [] ev.a = "Panic" -> StepPanic(ev)
+          [] ev.a = "Healed" -> StepHealed(ev)
+          [] ev.a = "Progress" -> StepProgress(ev)
           [] OTHER -> StepNode(ev)
      /\ Judge(ev)
 
